@@ -69,7 +69,7 @@ func classicBatches(tier string) int { return len(harnesses) * batchesPerPkg(tie
 // forkVisits times. statet has 62 arm kinds (the others 6..21) and gets twice the batches.
 func forkRounds(tier string) int {
 	if tier == "thorough" {
-		return 8
+		return 4
 	}
 	return 1
 }
